@@ -1,9 +1,10 @@
 import NavisModel.Proofs.RerootLemmas
+import NavisModel.Proofs.RerootEdgesLemmas
 /-!
 # C10 — reroot, cut and subset change the tree exactly as specified
 
 Property theorems only; helper lemmas are in `Proofs/ForestLemmas.lean`, `Proofs/PathLemmas.lean`,
-`Proofs/RerootLemmas.lean`.  All statements are for every table `t` (any size, any id labelling, any
+`Proofs/RerootLemmas.lean`, `Proofs/RerootEdgesLemmas.lean`.  All statements are for every table `t` (any size, any id labelling, any
 row order) that is a well-formed forest `WF t`, every target node, every keep-predicate.
 -/
 namespace Navis.Props.C10
@@ -72,6 +73,70 @@ theorem cut_share_only_cutnode (t : Table) (c : Int) (d p : Table) (h : cut t c 
         · exact Or.inl ⟨hi, hd⟩
         · exact Or.inr ⟨hi, Or.inl hd⟩
 
+/-! ### reroot: what exactly changes -/
+
+/-- The requested node becomes a root (it has no parent afterwards). -/
+theorem reroot_new_root (t : Table) (r : Int) (hr : r ∈ ids t) : ∃ n ∈ reroot t r, n.id = r ∧ n.parent < 0 :=
+  reroot_new_root' t r hr
+
+/-- Ids and coordinates stay where they are, row by row. -/
+theorem reroot_coords_unchanged (t : Table) (r : Int) :
+    (reroot t r).map (fun n => (n.id, n.x, n.y, n.z)) = t.map (fun n => (n.id, n.x, n.y, n.z)) :=
+  reroot_coords t r
+
+/-- A row whose node is not on the path `r → old root` is left completely alone: the very same row
+(same parent, coordinates and label) is in the result. -/
+theorem reroot_off_path_untouched (t : Table) (r : Int) (n : Node) (hn : n ∈ t) (hoff : n.id ∉ rootPath t r) :
+    n ∈ reroot t r ∧ ∃ m ∈ reroot t r, m.id = n.id ∧ m.parent = n.parent :=
+  ⟨reroot_off_path t r n hn hoff, n, reroot_off_path t r n hn hoff, rfl, rfl⟩
+
+/-- Every node on `r`'s root path is in `r`'s tree, so … -/
+theorem rootPath_same_tree (t : Table) (hw : WF t) (r a : Int) (ha : a ∈ rootPath t r) : rootOf t a = rootOf t r :=
+  rootOf_of_mem_rootPath hw ha
+
+/-- … all other trees of the forest are untouched by a reroot. -/
+theorem reroot_other_trees_untouched (t : Table) (hw : WF t) (r : Int) (n : Node) (hn : n ∈ t)
+    (hother : rootOf t n.id ≠ rootOf t r) : n ∈ reroot t r :=
+  reroot_off_path t r n hn (not_mem_rootPath_of_rootOf_ne hw hother)
+
+/-- Rerooting permutes the undirected edges: the edge *set* is the same and so is the number of
+edges (no edge is lost, duplicated or invented by the path reversal). -/
+theorem reroot_uedges (t : Table) (hw : WF t) (r : Int) :
+    (uedges (reroot t r)).Perm (uedges t) ∧ (∀ e, e ∈ uedges (reroot t r) ↔ e ∈ uedges t) ∧
+      (uedges (reroot t r)).length = (uedges t).length :=
+  ⟨uedges_reroot_perm hw r, fun _ => (uedges_reroot_perm hw r).mem_iff, (uedges_reroot_perm hw r).length_eq⟩
+
+/-- The *incremental* relabel navis performs (only the old and the new root are relabelled) gives
+the labels a fresh classification would give. -/
+theorem reroot_labels (t : Table) (hw : WF t) (hl : labelsOKB t = true) (r : Int) : labelsOKB (reroot t r) = true :=
+  labelsOKB_reroot hw hl r
+
+/-- … for a sequence of targets as well. -/
+theorem rerootMany_labels (t : Table) (hw : WF t) (hl : labelsOKB t = true) (rs : List Int) :
+    labelsOKB (rerootMany t rs) = true := by
+  unfold rerootMany
+  induction rs generalizing t with
+  | nil => exact hl
+  | cons r rs ih => exact ih (reroot t r) (WF_reroot hw r) (labelsOKB_reroot hw hl r)
+
+/-! ### cut: which nodes and which edges go where -/
+
+/-- The distal piece is the subtree of the cut node (descendants-or-self); the proximal piece is the
+rest plus the cut node. -/
+theorem cut_distal_is_subtree (t : Table) (c : Int) (d p : Table) (h : cut t c = some (d, p)) (i : Int) :
+    (i ∈ ids d ↔ i ∈ ids t ∧ c ∈ rootPath t i) ∧ (i ∈ ids p ↔ i ∈ ids t ∧ (c ∉ rootPath t i ∨ i = c)) :=
+  ⟨mem_ids_cut_distal h i, mem_ids_cut_proximal h i⟩
+
+/-- Every original edge lies in exactly one of the two pieces, and the pieces contain no other edge. -/
+theorem cut_edges_partition (t : Table) (hw : WF t) (c : Int) (d p : Table) (h : cut t c = some (d, p)) :
+    (edges d ++ edges p).Perm (edges t) :=
+  edges_cut_perm hw h
+
+/-- In particular the edge count adds up. -/
+theorem cut_edges_count (t : Table) (hw : WF t) (c : Int) (d p : Table) (h : cut t c = some (d, p)) :
+    (edges d).length + (edges p).length = (edges t).length := by
+  rw [← List.length_append]; exact (edges_cut_perm hw h).length_eq
+
 /-! ### Non-vacuity -/
 
 def ex : Table := [⟨1, -1, 0, 0, 0, .root⟩, ⟨2, 1, 3, 0, 0, .branch⟩, ⟨3, 2, 6, 0, 0, .end_⟩, ⟨4, 2, 3, 4, 0, .end_⟩]
@@ -80,5 +145,11 @@ example : wfB ex = true ∧ labelsOKB ex = true := by decide
 example : (reroot ex 4).map (fun n => (n.id, n.parent, n.label)) =
     [(1, 2, .end_), (2, 4, .branch), (3, 2, .end_), (4, -1, .root)] := by decide
 example : (cut ex 2).map (fun dp => (ids dp.1, ids dp.2)) = some ([2, 3, 4], [1, 2]) := by decide
+-- reroot: the same undirected edges in a different order, labels still correct; the path is 4 → 2 → 1
+example : uedges (reroot ex 4) = [(1, 2), (2, 4), (2, 3)] ∧ uedges ex = [(1, 2), (2, 3), (2, 4)] ∧
+    labelsOKB (reroot ex 4) = true ∧ rootPath ex 4 = [4, 2, 1] := by decide
+-- cut: the edge 2 → 1 stays proximal, the cut node is a root of the distal piece
+example : (cut ex 2).map (fun dp => (edges dp.1, edges dp.2)) = some ([(3, 2), (4, 2)], [(2, 1)]) ∧
+    edges ex = [(2, 1), (3, 2), (4, 2)] := by decide
 
 end Navis.Props.C10
